@@ -10,13 +10,18 @@ type op = Sub of Store.src | Q of string * string
 let starts_with p s = Stdlib.String.length s >= Stdlib.String.length p && Stdlib.String.sub s 0 (Stdlib.String.length p) = p
 let after n s = Stdlib.String.sub s n (Stdlib.String.length s - n)
 
+(* set by parse_case: the history contains zero-work headers (oracle from the history-level spec not applicable) *)
+let zero_work = ref false
+
 let parse_case (line : string) =
+  zero_work := false;
   let toks = Stdlib.List.filter (fun t -> t <> "") (split_on ';' line) in
   let head = Stdlib.List.filter (fun t -> starts_with "g=" t || starts_with "f=" t) toks in
   let h0 = parse_history (Stdlib.String.concat ";" head) in
   let ho = ref None in
   let ops = Stdlib.List.filter_map (fun t ->
       if starts_with "g=" t || starts_with "f=" t then None
+      else if starts_with "zw=" t then (zero_work := true; None)
       else if starts_with "ho=" t then (ho := Some (Stdlib.List.map n_of_string (Stdlib.List.filter (fun x -> x <> "") (split_on ',' (after 3 t)))); None)
       else if Stdlib.String.length t >= 2 && t.[1] = '=' then Some (Q (Stdlib.String.sub t 0 1, after 2 t))
       else match (parse_history t).subs with
@@ -134,7 +139,9 @@ let spec input obs =
   let (h, _, ops) = parse_case input in
   let nq = Stdlib.List.length (Stdlib.List.filter (function Q (t, _) -> t <> "z" && t <> "d" | _ -> false) ops) in
   let blocks = if obs = "" && nq = 0 then [] else split_on '|' obs in
-  if Stdlib.List.length blocks <> nq then "FAIL answer-block-count" else begin
+  if Stdlib.List.length blocks <> nq then "FAIL answer-block-count"
+  else if !zero_work then (if Stdlib.List.exists (fun b -> Stdlib.List.mem "PANIC" (split_on '+' b)) blocks then "FAIL panic zero-work history" else "OK")
+  else begin
     let ss = ref (Chain.init h.gid h.gpl) in       (* label-free specification store *)
     let blocks = ref blocks in
     let verdict = ref "OK" in
